@@ -32,8 +32,10 @@ def _md5(b):
 def _build(env, files):
     """(lazy index, expanded reference index, cache)"""
     cache = env.local_odb("cache")
+    remote = env.remote_odb("rem") if cube("where", "cache") == "remote" else None
+    holder = remote or cache  # cube where=remote: a cache is configured but empty, every object lives in the remote
     for v in files.values():
-        env.write(cache.oid_to_path(_md5(v)), v, mode=0o444)
+        env.write(holder.oid_to_path(_md5(v)), v, fs=holder.fs, mode=0o444 if holder is cache else None)
 
     def file_entry(k):
         key = tuple(k.split("/"))
@@ -42,6 +44,8 @@ def _build(env, files):
     lazy, full = DataIndex(), DataIndex()
     for idx in (lazy, full):
         idx.storage_map.add_cache(ObjectStorage((), cache))
+        if remote is not None:
+            idx.storage_map.add_remote(ObjectStorage((), remote))
     root = tuple(LAZY.split("/"))
     pre = LAZY + "/"
     t = Tree()
@@ -49,7 +53,7 @@ def _build(env, files):
         if k.startswith(pre):
             t.add(tuple(k[len(pre):].split("/")), None, HashInfo("md5", _md5(v)))
     t.digest()
-    env.write(cache.oid_to_path(t.oid), t.as_bytes(), mode=0o444)
+    env.write(holder.oid_to_path(t.oid), t.as_bytes(), fs=holder.fs, mode=0o444 if holder is cache else None)
     dirs = set()
     for k in files:
         parts = k.split("/")
@@ -139,6 +143,9 @@ def h_access(o2: int, o3: int, k1: int, k2: int, k3: int, p1: bool, p2: bool, p3
             trace.append([op, "/".join(key)])
             if a != b:
                 violation("lazy-index-observation-differs-from-expanded", (trace, a, b))
+            if op == 6 and a[0] != "fs.open" and "/".join(key) in files:
+                # every object is available in some configured storage: opening an indexed file must succeed
+                violation("adaptor-open-failed-for-available-file", ("/".join(key), a))
             if op == 6 and a[0] == "fs.open":
                 with NoTracing():
                     if a[1] != files.get("/".join(key)):
